@@ -1676,7 +1676,8 @@ sc_io_open (sc_MPI_Comm mpicomm, const char *filename,
   if ((*mpifile)->mpirank == 0) {
     errno = 0;
     (*mpifile)->file = fopen (filename, mode);
-    retval = errno;
+    /* a successful fopen may leave errno set (mode "ab" on a pipe) */
+    retval = ((*mpifile)->file == NULL) ? errno : 0;
   }
   else {
     retval = sc_MPI_SUCCESS;
